@@ -67,9 +67,17 @@ func NewBoundedStablePriorityMailbox(capacity int, priorityFunc PriorityFunc) *B
 // Enqueue places the given message in the mailbox. It is lock-free, never
 // blocks, and returns gerrors.ErrMailboxFull when the mailbox is at capacity.
 func (q *BoundedStablePriorityMailbox) Enqueue(msg *ReceiveContext) error {
-	if atomic.AddInt64(&q.length, 1) > q.capacity {
-		atomic.AddInt64(&q.length, -1)
-		return gerrors.ErrMailboxFull
+	// Reserve a slot only when one is free. An unconditional increment that is
+	// undone on overflow lets concurrent producers see a transiently inflated
+	// length and reject messages while the mailbox still has room.
+	for {
+		length := atomic.LoadInt64(&q.length)
+		if length >= q.capacity {
+			return gerrors.ErrMailboxFull
+		}
+		if atomic.CompareAndSwapInt64(&q.length, length, length+1) {
+			break
+		}
 	}
 
 	q.intake.push(msg)
